@@ -230,6 +230,7 @@ def check(case, ctx):
             if k["t"] == "cat":
                 continue
             k["vals"] = [v if i in sel else alt[i] for i, v in enumerate(k["vals"])]
+            k.pop("dtype", None)  # the re-drawn labels need not fit a narrow key dtype
     res_2 = ops.normalise(exec_case(c2))
     if o.kind == "red":
         compare_reduction_results(res_m, res_2, tol, f"rel2:{case['op']}", ordered=case["sort"] and not case.get("alt_keys"))
@@ -242,6 +243,9 @@ def check(case, ctx):
     if case["op"] == "ema" and case["mask"]["kind"] == "bool" and data.val_kind(case["vals"][0]) == "f":
         c3 = copy.deepcopy(case)
         c3["vals"][0]["vals"] = [v if i in sel else None for i, v in enumerate(case["vals"][0]["vals"])]
+        c3["vals"][0].pop("chunks", None)  # nulls inside Arrow chunks are a rejected input class: plain container here
+        if c3.get("render", {}).get("vc") not in ("np", "series"):
+            c3["render"] = dict(c3["render"], vc="np")
         c3["mask"] = None
         v3 = row_values(ops.normalise(exec_case(c3)), n)
         vm = row_values(res_m, n)
